@@ -365,3 +365,100 @@ theorem chain_two_stage {T : σ → σ → Prop} {ok : α → Prop} {l1 : Lbl} {
           exact ⟨s1, s2, l2, f2, rfl, ht1, hq, ht2, this ▸ hr⟩
 
 end Placement.Sched
+
+namespace Placement.Sched
+open Placement
+variable {σ α : Type}
+
+/-! ### at most one effective writer -/
+
+/-- every transaction of the program, on states satisfying `W`, is a commit against the guard `C`
+or leaves the state unchanged -/
+inductive CoQ (W : σ → Prop) (C : σ → Prop) (B : σ → σ → Prop) : Prog σ α → Prop
+  | done (a : α) : CoQ W C B (.done a)
+  | txn (l : Lbl) (f : σ → σ × Prog σ α) : (∀ s, W s → ¬ (C s ∧ B s (f s).1) → (f s).1 = s) →
+      (∀ s, W s → CoQ W C B (f s).2) → CoQ W C B (.txn l f)
+
+theorem CoQ.step {W C : σ → Prop} {B : σ → σ → Prop} {l : Lbl} {f : σ → σ × Prog σ α}
+    (h : CoQ W C B (.txn l f)) {s : σ} (hw : W s) :
+    (¬ (C s ∧ B s (f s).1) → (f s).1 = s) ∧ CoQ W C B (f s).2 := by
+  cases h with
+  | txn _ _ h1 h2 => exact ⟨h1 s hw, h2 s hw⟩
+
+/-- every step of a request of `S` other than `k` leaves the state unchanged -/
+def QuietFor (S : Nat → Prop) (k : Option Nat) : List Nat → σ → List (Prog σ α) → Prop
+  | [], _, _ => True
+  | j :: rest, s, ps => (S j → some j ≠ k → (Prog.stepAt ps j s).1 = s) ∧
+                        QuietFor S k rest (Prog.stepAt ps j s).1 (Prog.stepAt ps j s).2
+
+theorem quietFor_split {S : Nat → Prop} {k : Option Nat} : ∀ (pre : List Nat) (j : Nat) (post : List Nat) (s : σ)
+    (ps : List (Prog σ α)), QuietFor S k (pre ++ j :: post) s ps → S j → some j ≠ k →
+    (Prog.runSched (pre ++ [j]) s ps).1 = (Prog.runSched pre s ps).1
+  | [], _, _, _, _, h, hs, hk => h.1 hs hk
+  | _ :: pre, j, post, _, _, h, hs, hk => quietFor_split pre j post _ _ h.2 hs hk
+
+section
+variable {Q : σ → σ → Prop} {W D C : σ → Prop} {B : σ → σ → Prop} (S : Nat → Prop)
+
+theorem coq_pool_step (hW : ∀ s s', Q s s' → W s → W s') {s : σ} {ps : List (Prog σ α)} (hps : PoolAll Q ps)
+    (hw : W s) (hS : ∀ i, S i → ∀ p, ps[i]? = some p → CoQ W C B p) (j : Nat) :
+    PoolAll Q (Prog.stepAt ps j s).2 ∧ W (Prog.stepAt ps j s).1 ∧
+    (∀ i, S i → ∀ p, (Prog.stepAt ps j s).2[i]? = some p → CoQ W C B p) := by
+  rcases stepAt_cases ps j s with ⟨e, -⟩ | ⟨l, f, hj, e⟩
+  · rw [e]; exact ⟨hps, hw, hS⟩
+  · rw [e]
+    have hq := (hps _ (List.mem_of_getElem? hj)).step s
+    have hjlt : j < ps.length := (List.getElem?_eq_some_iff.mp hj).1
+    refine ⟨hps.set j hq.2, hW _ _ hq.1 hw, ?_⟩
+    intro i hi p hp
+    show CoQ W C B p
+    by_cases hji : j = i
+    · subst hji
+      rw [List.getElem?_set_self hjlt] at hp
+      cases hp
+      exact ((hS j hi _ hj).step hw).2
+    · rw [List.getElem?_set_ne hji] at hp
+      exact hS i hi p hp
+
+theorem quiet_after_commit (hW : ∀ s s', Q s s' → W s → W s') (hD : ∀ s s', Q s s' → W s → D s → D s')
+    (hCD : ∀ s, W s → C s → ¬ D s) (k : Option Nat) :
+    ∀ (sched : List Nat) (s : σ) (ps : List (Prog σ α)), PoolAll Q ps → W s → D s →
+      (∀ i, S i → ∀ p, ps[i]? = some p → CoQ W C B p) → QuietFor S k sched s ps
+  | [], _, _, _, _, _, _ => trivial
+  | j :: rest, s, ps, hps, hw, hd, hS => by
+    obtain ⟨h1, h2, h3⟩ := coq_pool_step S hW hps hw hS j
+    have hd' : D (Prog.stepAt ps j s).1 := by
+      rcases (hps.stepAt j s).2 with e | q
+      · rw [e]; exact hd
+      · exact hD _ _ q hw hd
+    refine ⟨fun hj _ => ?_, quiet_after_commit hW hD hCD k rest _ _ h1 h2 hd' h3⟩
+    rcases stepAt_cases ps j s with ⟨e, -⟩ | ⟨l, f, hjj, e⟩
+    · rw [e]
+    · rw [e]
+      exact ((hS j hj _ hjj).step hw).1 (fun hc => hCD s hw hc.1 hd)
+
+/-- **at most one effective writer**: of the requests `S`, each of whose transactions is a commit
+against the guard or leaves the state unchanged, all but at most one (`k`) leave the state unchanged
+in every one of their steps, provided a commit makes the guard unsatisfiable for good -/
+theorem at_most_one_effective (hW : ∀ s s', Q s s' → W s → W s') (hD : ∀ s s', Q s s' → W s → D s → D s')
+    (hCD : ∀ s, W s → C s → ¬ D s) (hBD : ∀ s s', W s → B s s' → D s') :
+    ∀ (sched : List Nat) (s : σ) (ps : List (Prog σ α)), PoolAll Q ps → W s →
+      (∀ i, S i → ∀ p, ps[i]? = some p → CoQ W C B p) → ∃ k, QuietFor S k sched s ps
+  | [], _, _, _, _, _ => ⟨none, trivial⟩
+  | j :: rest, s, ps, hps, hw, hS => by
+    obtain ⟨h1, h2, h3⟩ := coq_pool_step S hW hps hw hS j
+    rcases stepAt_cases ps j s with ⟨e, -⟩ | ⟨l, f, hjj, e⟩
+    · obtain ⟨k, hk⟩ := at_most_one_effective hW hD hCD hBD rest _ _ h1 h2 h3
+      exact ⟨k, fun _ _ => by rw [e], hk⟩
+    · by_cases hcom : S j ∧ C s ∧ B s (f s).1
+      · refine ⟨some j, fun _ hne => absurd rfl hne, ?_⟩
+        refine quiet_after_commit S hW hD hCD (some j) rest _ _ h1 h2 ?_ h3
+        rw [e]; exact hBD _ _ hw hcom.2.2
+      · obtain ⟨k, hk⟩ := at_most_one_effective hW hD hCD hBD rest _ _ h1 h2 h3
+        refine ⟨k, fun hj _ => ?_, hk⟩
+        rw [e]
+        exact ((hS j hj _ hjj).step hw).1 (fun hc => hcom ⟨hj, hc⟩)
+
+end
+
+end Placement.Sched
